@@ -37,7 +37,9 @@ func c09Queued(t *rapid.T) []string {
 	case 0:
 		return c09Data(t)
 	case 1:
-		return pick(t, "rej", []string{"NOSUCHCMD", "x"}, []string{"GET"}, []string{"SET", "a"}, []string{"LPUSH", "l"}, []string{"HSET", "h", "f"}, []string{"FOO"})
+		return pick(t, "rej", []string{"NOSUCHCMD", "x"}, []string{"GET"}, []string{"SET", "a"}, []string{"LPUSH", "l"}, []string{"HSET", "h", "f"}, []string{"FOO"},
+			// container commands: an unknown sub-command or a sub-command with the wrong number of arguments is refused just the same
+			[]string{"CLIENT", "NOSUCHSUBCOMMAND"}, []string{"CLIENT", "SETNAME"}, []string{"COMMAND", "BOGUS", "x"}, []string{"CLIENT", "GETNAME", "extra"}, []string{"client", "unblock"}, []string{"COMMAND", "GETKEYS"})
 	case 2:
 		// run-time failures
 		return pick(t, "rt", []string{"INCR", "l"}, []string{"LPOP", "a"}, []string{"HGET", "a", "f"}, []string{"INCRBY", "a", "9223372036854775807"}, []string{"LSET", "l", "99", "x"}, []string{"SADD", "a", "m"})
